@@ -49,7 +49,11 @@ func (c *Client) Authenticate(saslClient sasl.Client) error {
 				return fmt.Errorf("imapclient: server requested SASL initial response, but we don't have one")
 			}
 
-			contReq = c.registerContReq(cmd)
+			var ok bool
+			if contReq, ok = c.tryRegisterContReq(cmd); !ok {
+				// The server has already completed the command
+				return cmd.Wait()
+			}
 			if err := c.writeSASLResp(initialResp); err != nil {
 				return err
 			}
@@ -67,7 +71,11 @@ func (c *Client) Authenticate(saslClient sasl.Client) error {
 			return err
 		}
 
-		contReq = c.registerContReq(cmd)
+		var ok bool
+		if contReq, ok = c.tryRegisterContReq(cmd); !ok {
+			// The server has already completed the command
+			return cmd.Wait()
+		}
 		if err := c.writeSASLResp(resp); err != nil {
 			return err
 		}
